@@ -327,9 +327,15 @@ Definition leaves_indexes (U : list uindex) (o : op) : bool :=
   match o with
   | OCreateIndex _ _ _ => false
   | ODropIndex i => negb (has_uix U i)
-  | OInsert t _ | OApiInsert t _ | OApiBatch t _ | OUpdate t _ _ _ => negb (table_indexed U t)
+  | OInsert t _ | OApiInsert t _ | OApiBatch t _ | OUpdate t _ _ _ | ODelete t _ => negb (table_indexed U t)
   | _ => true
   end.
+
+Lemma uix_rebuild_unindexed U t rows : table_indexed U t = false -> uix_rebuild U t rows = U.
+Proof.
+  unfold table_indexed, uix_rebuild. induction U as [|ix U IH]; cbn [existsb map]; [reflexivity|].
+  intros H. apply orb_false_iff in H as [H1 H2]. rewrite H1, IH by assumption. reflexivity.
+Qed.
 
 Lemma uix_insert_unindexed U t r pos : table_indexed U t = false -> uix_insert U t r pos = U.
 Proof.
@@ -393,7 +399,8 @@ Proof.
   - cbn [fst]. apply record_uix.
   - unfold sql_update. repeat (destr_match; cbn [fst d_uix]; try reflexivity).
     now apply uix_update_rows_unindexed.
-  - unfold sql_delete. repeat (destr_match; cbn [fst]; try reflexivity).
+  - unfold sql_delete. destruct (get_table (d_tabs d) t); cbn [fst d_uix]; [|reflexivity].
+    now apply uix_rebuild_unindexed.
   - discriminate.
   - unfold sql_drop_index. rewrite H. repeat (destr_match; cbn [fst d_uix]; try reflexivity).
     now apply uix_remove_absent.
@@ -511,9 +518,307 @@ Qed.
 Example rollback_restores_example :
   let db := run (mkDb (mkCat [0; 1] []) [(0, mkTable [TInt; TInt] []); (1, mkTable [TInt; TVarchar (Some 2%nat)] [])] [] None)
                 [OInsert 0 [[LInt 1; LInt 10]]; OCreateIndex 0 0 1%nat; OInsert 1 [[LInt 1; LStr [97]]]] in
-  let ops := [OInsert 1 [[LInt 2; LStr [97; 98; 99]]]; OSavepoint 1; OUpdate 1 0%nat 5 None; ODelete 0 None;
+  let ops := [OInsert 1 [[LInt 2; LStr [97; 98; 99]]]; OSavepoint 1; OUpdate 1 0%nat 5 None; ODelete 1 (Some (0%nat, 5));
               ORollbackTo 1; OBegin] in
   d_tx db = None /\ forallb inside ops = true /\ forallb (leaves_indexes (d_uix db)) ops = true /\
   d_tabs (run (fst (step db OBegin)) ops) <> d_tabs db /\
   fst (step (run (fst (step db OBegin)) ops) ORollback) = db.
+Proof. vm_compute. repeat split; congruence. Qed.
+
+(** * Transactions that only add rows: the user indexes are NOT restored, yet no query can tell
+    immediately after ROLLBACK -- the left-over entries point past the end of the restored tables.
+    (A later INSERT can tell: see [rollback_insert_only_continuation_refuted].) *)
+
+Lemma ikey_eqb_eq a b : ikey_eqb a b = true <-> a = b.
+Proof.
+  destruct a, b; cbn; split; intros H; try discriminate; try reflexivity.
+  - apply Z.eqb_eq in H. now subst.
+  - inversion H. apply Z.eqb_refl.
+Qed.
+
+Lemma ikey_eqb_sym a b : ikey_eqb a b = ikey_eqb b a.
+Proof. destruct a, b; cbn; try reflexivity. apply Z.eqb_sym. Qed.
+
+Lemma idx_lookup_push k k' p d :
+  idx_lookup k (idx_push k' p d) = idx_lookup k d ++ (if ikey_eqb k' k then [p] else []).
+Proof.
+  induction d as [|[k0 l] d IH]; cbn [idx_push idx_lookup].
+  - destruct (ikey_eqb k' k); reflexivity.
+  - destruct (ikey_eqb k0 k') eqn:E0; cbn [idx_lookup].
+    + apply ikey_eqb_eq in E0; subst k0. destruct (ikey_eqb k' k); [reflexivity|now rewrite app_nil_r].
+    + destruct (ikey_eqb k0 k) eqn:E1; [|exact IH].
+      apply ikey_eqb_eq in E1; subst k0. rewrite ikey_eqb_sym, E0. now rewrite app_nil_r.
+Qed.
+
+(** statements under which tables only grow and no index key of an existing row changes *)
+Definition col_indexed (U : list uindex) (t : tname) (c : nat) : bool :=
+  existsb (fun ix => (ix_table ix =? t) && (ix_col ix =? c)%nat) U.
+
+Definition grows_only (U : list uindex) (o : op) : bool :=
+  match o with
+  | OBegin | OSavepoint _ | ORelease _ | OApiRecord _ => true
+  | OInsert _ _ | OApiInsert _ _ | OApiBatch _ _ => true
+  | OUpdate t c _ _ => negb (col_indexed U t c)
+  | _ => false
+  end.
+
+(** [U] extends [U0]: same indexes in the same order, and under every key the row-index list of
+    [U0] followed by row indices that are at least [lo t] for the index's table [t] *)
+Fixpoint uix_extends (lo : tname -> nat) (U0 U : list uindex) : Prop :=
+  match U0, U with
+  | [], [] => True
+  | ix0 :: U0', ix :: U' =>
+      ix_name ix = ix_name ix0 /\ ix_table ix = ix_table ix0 /\ ix_col ix = ix_col ix0 /\
+      (forall k, exists extra, idx_lookup k (ix_data ix) = idx_lookup k (ix_data ix0) ++ extra /\
+                               Forall (fun p => (lo (ix_table ix0) <= p)%nat) extra) /\
+      uix_extends lo U0' U'
+  | _, _ => False
+  end.
+
+Lemma uix_extends_refl lo U : uix_extends lo U U.
+Proof.
+  induction U as [|ix U IH]; cbn; auto. repeat split; auto. intros k. exists []. now rewrite app_nil_r.
+Qed.
+
+Definition rows_len (T : tables) (t : tname) : nat :=
+  match get_table T t with Some tb => length (t_rows tb) | None => O end.
+
+Lemma uix_extends_insert lo U0 U t r pos :
+  (lo t <= pos)%nat -> uix_extends lo U0 U -> uix_extends lo U0 (uix_insert U t r pos).
+Proof.
+  intros Hp. revert U; induction U0 as [|ix0 U0 IH]; intros [|ix U]; cbn; try tauto.
+  intros (H1 & H2 & H3 & H4 & H5). destruct (ix_table ix =? t) eqn:E; cbn.
+  - split; [assumption|]. split; [assumption|]. split; [assumption|]. split; [|exact (IH _ H5)].
+    intros k. destruct (H4 k) as (extra & He & Hf).
+    rewrite idx_lookup_push, He, <- app_assoc. eexists; split; [reflexivity|].
+    apply Forall_app; split; [assumption|]. destruct (ikey_eqb _ k); constructor; [|constructor].
+    apply Z.eqb_eq in E. rewrite <- H2, E. assumption.
+  - split; [assumption|]. split; [assumption|]. split; [assumption|]. split; [assumption|exact (IH _ H5)].
+Qed.
+
+Lemma uix_extends_insert_many lo U0 t rs : forall U pos,
+  (lo t <= pos)%nat -> uix_extends lo U0 U -> uix_extends lo U0 (uix_insert_many U t rs pos).
+Proof.
+  induction rs as [|r rs IH]; intros U pos Hp H; cbn [uix_insert_many]; [assumption|].
+  apply IH; [lia|]. now apply uix_extends_insert.
+Qed.
+
+Lemma nth_set_nth_other c c' v r : c <> c' -> nth c' (set_nth c v r) VNull = nth c' r VNull.
+Proof.
+  revert c c'; induction r as [|x r IH]; intros [|c] [|c'] H; cbn; try reflexivity; try congruence.
+  apply IH. congruence.
+Qed.
+
+Lemma uix_update_unindexed_col U t c v r pos :
+  col_indexed U t c = false -> uix_update U t r (set_nth c v r) pos = U.
+Proof.
+  unfold col_indexed, uix_update. induction U as [|ix U IH]; cbn [existsb map]; [reflexivity|].
+  intros H. apply orb_false_iff in H as [H1 H2]. rewrite IH by assumption.
+  destruct (ix_table ix =? t) eqn:E; [|reflexivity]. cbn in H1.
+  assert (Hc : c <> ix_col ix).
+  { intros ->. rewrite Nat.eqb_refl in H1. discriminate. }
+  unfold row_key. rewrite (nth_set_nth_other c (ix_col ix) v r Hc).
+  assert (Hk : ikey_eqb (key_of_cell (nth (ix_col ix) r VNull)) (key_of_cell (nth (ix_col ix) r VNull)) = true)
+    by now apply ikey_eqb_eq.
+  now rewrite Hk.
+Qed.
+
+Lemma uix_update_rows_unindexed_col U t c k w : forall rows pos,
+  col_indexed U t c = false -> uix_update_rows U t c k w pos rows = U.
+Proof.
+  induction rows as [|r rows IH]; intros pos H; cbn [uix_update_rows]; [reflexivity|].
+  destruct (matches w r); [rewrite uix_update_unindexed_col by assumption|]; now apply IH.
+Qed.
+
+(** table lengths *)
+Lemma rows_len_set_same T t tb tb' :
+  get_table T t = Some tb -> rows_len (set_table T t tb') t = length (t_rows tb').
+Proof. intros G. unfold rows_len. now rewrite (get_set_same _ _ _ _ G). Qed.
+
+Lemma rows_len_set_other T t t' tb' : t' <> t -> rows_len (set_table T t tb') t' = rows_len T t'.
+Proof. intros H. unfold rows_len. now rewrite get_set_other. Qed.
+
+Lemma rows_len_set_ge T t tb tb' t' :
+  get_table T t = Some tb -> (length (t_rows tb) <= length (t_rows tb'))%nat ->
+  (rows_len T t' <= rows_len (set_table T t tb') t')%nat.
+Proof.
+  intros G Hl. destruct (Z.eq_dec t' t) as [->|Hne].
+  - rewrite (rows_len_set_same _ _ _ _ G). unfold rows_len. rewrite G. assumption.
+  - rewrite rows_len_set_other by assumption. lia.
+Qed.
+
+Lemma table_insert_length tb r tb' : table_insert tb r = Done tb' -> length (t_rows tb') = S (length (t_rows tb)).
+Proof.
+  unfold table_insert. destruct (normalize_row _ _); try discriminate. intros H; inversion H; subst.
+  cbn. rewrite app_length. cbn. lia.
+Qed.
+
+Lemma table_insert_many_length rs : forall tb tb' st,
+  table_insert_many tb rs = (tb', st) -> (length (t_rows tb) <= length (t_rows tb'))%nat.
+Proof.
+  induction rs as [|r rs IH]; intros tb tb' st H; cbn [table_insert_many] in H.
+  - inversion H; subst. lia.
+  - destruct (table_insert tb r) as [tb1| |] eqn:E; try (inversion H; subst; lia).
+    apply table_insert_length in E. apply IH in H. lia.
+Qed.
+
+Lemma update_rows_length cols c k w : forall rows rows' st,
+  update_rows cols c k w rows = (rows', st) -> length rows' = length rows.
+Proof.
+  induction rows as [|r rows IH]; intros rows' st H; cbn [update_rows] in H.
+  - inversion H; reflexivity.
+  - destruct (matches w r).
+    + destruct (normalize_row _ _); try (inversion H; reflexivity).
+      destruct (update_rows cols c k w rows) as [rest st'] eqn:E. inversion H; subst. cbn. f_equal. eauto.
+    + destruct (update_rows cols c k w rows) as [rest st'] eqn:E. inversion H; subst. cbn. f_equal. eauto.
+Qed.
+
+(** the invariant of a growing transaction, relative to the state at BEGIN *)
+Definition grown (T0 : tables) (U0 : list uindex) (d : db) : Prop :=
+  (forall t, (rows_len T0 t <= rows_len (d_tabs d) t)%nat) /\ uix_extends (rows_len T0) U0 (d_uix d).
+
+Lemma col_indexed_extends lo U0 U t c : uix_extends lo U0 U -> col_indexed U t c = col_indexed U0 t c.
+Proof.
+  revert U; induction U0 as [|ix0 U0 IH]; intros [|ix U]; cbn; try tauto.
+  intros (H1 & H2 & H3 & H4 & H5). unfold col_indexed in *. cbn [existsb]. rewrite H2, H3. f_equal. auto.
+Qed.
+
+Lemma api_insert_row_grown T0 U0 d t r : grown T0 U0 d -> grown T0 U0 (fst (api_insert_row d t r)).
+Proof.
+  intros [HL HU]. unfold api_insert_row.
+  destruct (get_table (d_tabs d) t) as [tb|] eqn:G; [|split; assumption].
+  destruct (table_insert tb r) as [tb'| |] eqn:E; try (split; assumption).
+  cbn [fst]. pose proof (table_insert_length _ _ _ E) as Hlen. split.
+  - intros t'. rewrite record_tabs. cbn [d_tabs]. specialize (HL t').
+    pose proof (rows_len_set_ge (d_tabs d) t tb tb' t' G). lia.
+  - rewrite record_uix. cbn [d_uix]. apply uix_extends_insert; [|assumption].
+    specialize (HL t). unfold rows_len in HL at 2. rewrite G in HL. assumption.
+Qed.
+
+Lemma api_insert_batch_grown T0 U0 d t rs : grown T0 U0 d -> grown T0 U0 (fst (api_insert_batch d t rs)).
+Proof.
+  intros [HL HU]. unfold api_insert_batch. destruct rs as [|r0 rs0]; [split; assumption|].
+  destruct (get_table (d_tabs d) t) as [tb|] eqn:G; [|split; assumption].
+  destruct (table_insert_many tb (r0 :: rs0)) as [tb' st] eqn:E.
+  pose proof (table_insert_many_length _ _ _ _ E) as Hlen.
+  assert (HL' : forall t', (rows_len T0 t' <= rows_len (set_table (d_tabs d) t tb') t')%nat).
+  { intros t'. specialize (HL t'). pose proof (rows_len_set_ge (d_tabs d) t tb tb' t' G Hlen). lia. }
+  destruct st as [u| |]; cbn [fst]; split; rewrite ?record_tabs, ?record_uix; cbn [d_tabs d_uix]; auto.
+  apply uix_extends_insert_many; [|assumption].
+  specialize (HL t). unfold rows_len in HL at 2. rewrite G in HL. assumption.
+Qed.
+
+Lemma step_grown T0 U0 d o :
+  grows_only U0 o = true -> grown T0 U0 d -> grown T0 U0 (fst (step d o)).
+Proof.
+  intros Hg H. destruct o; try discriminate Hg; cbn [step].
+  - unfold begin_txn. destruct (d_tx d); assumption.
+  - unfold create_savepoint. destruct (d_tx d); assumption.
+  - unfold release_savepoint. repeat (destr_match; cbn [fst]); assumption.
+  - unfold sql_insert. repeat (destr_match; cbn [fst]); try assumption.
+    + now apply api_insert_row_grown.
+    + now apply api_insert_batch_grown.
+  - now apply api_insert_row_grown.
+  - now apply api_insert_batch_grown.
+  - cbn [fst]. destruct H as [HL HU]. split; [now rewrite record_tabs|now rewrite record_uix].
+  - cbn [grows_only] in Hg. apply negb_true_iff in Hg. destruct H as [HL HU].
+    rewrite <- (col_indexed_extends _ _ _ t c HU) in Hg.
+    unfold sql_update. destruct (get_table (d_tabs d) t) as [tb|] eqn:G; [|split; assumption].
+    destruct (_ <=? _)%nat; [split; assumption|].
+    destruct (update_rows (t_cols tb) c k w (t_rows tb)) as [rows' st] eqn:E.
+    pose proof (update_rows_length _ _ _ _ _ _ _ E) as Hlen.
+    assert (HL' : forall t', (rows_len T0 t' <= rows_len (set_table (d_tabs d) t (mkTable (t_cols tb) rows')) t')%nat).
+    { intros t'. specialize (HL t').
+      pose proof (rows_len_set_ge (d_tabs d) t tb (mkTable (t_cols tb) rows') t' G). cbn [t_rows] in *. lia. }
+    destruct st as [u| |]; cbn [fst]; split; cbn [d_tabs d_uix]; auto.
+    now rewrite uix_update_rows_unindexed_col.
+Qed.
+
+Lemma run_grown T0 U0 ops : forall d,
+  Forall (fun o => grows_only U0 o = true) ops -> grown T0 U0 d -> grown T0 U0 (run d ops).
+Proof.
+  induction ops as [|o ops IH]; intros d HF H; [assumption|].
+  inversion HF as [|? ? Ho HF']; subst. cbn [run fold_left]. fold (run (fst (step d o)) ops).
+  apply IH; [assumption|]. now apply step_grown.
+Qed.
+
+Lemma fetch_rows_app rows a b : fetch_rows rows (a ++ b) = fetch_rows rows a ++ fetch_rows rows b.
+Proof.
+  induction a as [|i a IH]; cbn [fetch_rows app]; [reflexivity|].
+  destruct (nth_error rows i); cbn; now rewrite IH.
+Qed.
+
+Lemma fetch_rows_beyond rows extra : Forall (fun p => (length rows <= p)%nat) extra -> fetch_rows rows extra = [].
+Proof.
+  induction extra as [|p extra IH]; intros H; [reflexivity|]. inversion H; subst. cbn [fetch_rows].
+  destruct (nth_error rows p) eqn:E; [|auto].
+  assert (p < length rows)%nat by (apply nth_error_Some; congruence). lia.
+Qed.
+
+Lemma q_point_extends T0 c0 U0 U x t c k o :
+  uix_extends (rows_len T0) U0 U ->
+  q_point (mkDb c0 T0 U x) t c k o = q_point (mkDb c0 T0 U0 x) t c k o.
+Proof.
+  intros HU. unfold q_point. cbn [d_tabs d_uix]. destruct (get_table T0 t) as [tb|] eqn:G; [|reflexivity].
+  revert U HU. induction U0 as [|ix0 U0 IH]; intros [|ix U]; cbn [uix_extends find_uix]; try tauto.
+  intros (H1 & H2 & H3 & H4 & H5). rewrite H2, H3.
+  destruct ((ix_table ix0 =? t) && (ix_col ix0 =? c)%nat) eqn:E; [|now apply IH].
+  destruct (H4 (Some k)) as (extra & -> & Hf). rewrite fetch_rows_app, filter_app.
+  rewrite (fetch_rows_beyond (t_rows tb) extra); [now rewrite app_nil_r|].
+  apply andb_true_iff in E as [E _]. apply Z.eqb_eq in E. rewrite E in Hf.
+  unfold rows_len in Hf. now rewrite G in Hf.
+Qed.
+
+Lemma listing_extends lo U0 U : uix_extends lo U0 U -> storage_index_listing (mkDb (mkCat [] []) [] U None) = storage_index_listing (mkDb (mkCat [] []) [] U0 None).
+Proof.
+  unfold storage_index_listing. cbn [d_uix]. revert U; induction U0 as [|ix0 U0 IH]; intros [|ix U]; cbn; try tauto.
+  intros (H1 & H2 & H3 & H4 & H5). rewrite H1, H2, H3. f_equal. auto.
+Qed.
+
+(** C13 for growing transactions (INSERTs through SQL or the storage API, UPDATEs of un-indexed
+    columns, SAVEPOINT / RELEASE), with any user indexes in any state: every observation right after
+    ROLLBACK equals the one before BEGIN *)
+Theorem rollback_restores_obs_growing db ops :
+  d_tx db = None -> Forall (fun o => grows_only (d_uix db) o = true) ops ->
+  obs_eq (fst (step (run (fst (step db OBegin)) ops) ORollback)) db.
+Proof.
+  intros Hn HF.
+  assert (HI : Forall (fun o => inside o = true) ops).
+  { eapply Forall_impl; [|exact HF]. intros o Ho. destruct o; try reflexivity; discriminate. }
+  destruct (rollback_restores_tables_catalog db ops Hn HI) as (_ & H1 & H2 & H3 & H4).
+  set (after := run (fst (step db OBegin)) ops) in *.
+  assert (HG : grown (d_tabs db) (d_uix db) after).
+  { unfold after. apply run_grown; [assumption|].
+    cbn [step]. unfold begin_txn. rewrite Hn. cbn [fst]. split; cbn; [lia|apply uix_extends_refl]. }
+  destruct HG as [_ HU].
+  set (rolled := fst (step after ORollback)) in *.
+  unfold obs_eq. split; [assumption|]. split; [assumption|]. split.
+  - unfold storage_index_listing. rewrite H4.
+    pose proof (listing_extends _ _ _ HU) as HL. unfold storage_index_listing in HL. cbn [d_uix] in HL. exact HL.
+  - intros t c k o.
+    destruct rolled as [rc rT rU rx] eqn:ER. cbn [d_cat d_tabs d_uix d_tx] in *. subst rc rT rU rx.
+    destruct db as [c0 T0 U0 x0]. cbn [d_cat d_tabs d_uix d_tx] in *. subst x0.
+    now apply q_point_extends.
+Qed.
+
+(** ... but the indexes are not restored, and one more committed INSERT shows it: the stale entry and
+    the new entry point at the same position and the row is answered twice *)
+Theorem rollback_insert_only_continuation_refuted :
+  exists db ops epilogue t c k o,
+    d_tx db = None /\ Forall (fun o => grows_only (d_uix db) o = true) ops /\
+    q_point (run (fst (step (run (fst (step db OBegin)) ops) ORollback)) epilogue) t c k o
+    <> q_point (run db epilogue) t c k o.
+Proof.
+  exists (run (mkDb (mkCat [1] []) [(1, mkTable [TInt; TInt] [])] [] None) [OCreateIndex 2 1 1%nat]),
+         [OInsert 1 [[LInt 1; LInt 5]]], [OInsert 1 [[LInt 2; LInt 5]]], 1, 1%nat, 5, false.
+  split; [reflexivity|]. split; [repeat constructor|]. vm_compute. discriminate.
+Qed.
+
+Example rollback_restores_obs_growing_example :
+  let db := run (mkDb (mkCat [0] []) [(0, mkTable [TInt; TInt; TInt] [])] [] None)
+                [OInsert 0 [[LInt 1; LInt 5; LInt 7]]; OCreateIndex 0 0 1%nat] in
+  let ops := [OInsert 0 [[LInt 2; LInt 5; LInt 8]; [LInt 3; LInt 6; LNull]]; OSavepoint 1;
+              OUpdate 0 2%nat 9 (Some (1%nat, 5)); OApiInsert 0 [VInteger 4; VNull; VNull]] in
+  d_tx db = None /\ forallb (grows_only (d_uix db)) ops = true /\
+  d_uix (fst (step (run (fst (step db OBegin)) ops) ORollback)) <> d_uix db.
 Proof. vm_compute. repeat split; congruence. Qed.
